@@ -64,7 +64,8 @@ Definition keyed_of (cviews : list cview) : list (string * (rcourse * (option js
 Definition skipped_of (cviews : list cview) : list Z := map cv_id (filter (fun v => negb (in_problem ign_c v)) cviews).
 
 Lemma goc_spec : forall l,
-  goc track_id ign_c ff of l = let* cviews := mapM (view_course track_id ign_c ff of) l in ROk (keyed_of cviews, skipped_of cviews).
+  goc track_id ign_c ff of l = let* cviews := mapM (view_course track_id ign_c ff of) l in
+  ROk (keyed_of cviews, skipped_of cviews, List.length (filter (ignored_cancelled ign_c) cviews)).
 Proof.
   induction l as [|[k c] t IH]; [reflexivity|]. cbn [goc mapM]. unfold view_course at 1.
   destruct (parse_u64 k) as [cid|]; [|reflexivity]. cbn [ok_or bind].
@@ -72,7 +73,7 @@ Proof.
   set (skip := match st with NotOffered => true | Cancelled => ign_c | TakesPlace => false end).
   destruct (if skip then ROk (None, None) else _) as [fo|e] eqn:Efo; [|reflexivity]. cbn [bind].
   rewrite IH. destruct (mapM (view_course track_id ign_c ff of) t) as [cviews|e]; [|reflexivity]. cbn [bind].
-  unfold keyed_of, skipped_of. cbn [filter]. unfold in_problem at 1 3. cbn [cv_status].
+  unfold keyed_of, skipped_of. cbn [filter]. unfold in_problem at 1 3. unfold ignored_cancelled at 1. cbn [cv_status].
   subst skip. destruct st, ign_c; reflexivity.
 Qed.
 End Courses.
@@ -248,5 +249,5 @@ Proof.
   rewrite <- spec_courses_adapt.
   destruct (ok_or _ 50) as [eid|e]; [|reflexivity]. cbn [bind].
   destruct (ok_or _ 51) as [sn|e]; [|reflexivity]. cbn [bind].
-  unfold skipped_of. rewrite map_length. reflexivity.
+  reflexivity.
 Qed.
